@@ -21,6 +21,33 @@ LEVEL = 'other'
 SIMS = 'emg3d/simulations.py'
 
 
+def signed_frequency(ctx, rule):
+    """Nowhere in the computation modules is a Field built from the public
+    `.frequency` (= abs value) of another field: the sign carries the domain
+    (negative = Laplace)."""
+    n = 0
+    for rel in ('emg3d/simulations.py', 'emg3d/fields.py', 'emg3d/solver.py',
+                'emg3d/_multiprocessing.py', 'emg3d/maps.py'):
+        mod = ctx.repo.mod(rel)
+        for c in au.calls(mod.tree):
+            f = ast.unparse(c.func)
+            if not (f.endswith('Field') or f.endswith('get_source_field')
+                    or f.endswith('.get_field')):
+                continue
+            for k in c.keywords:
+                if k.arg == 'frequency':
+                    n += 1
+                    bad = isinstance(k.value, ast.Attribute) and \
+                        k.value.attr == 'frequency'
+                    ctx.check(rule, f'{au.qualname(c)} `{f}(.., frequency='
+                              f'{ast.unparse(k.value)})`', not bad,
+                              'a field / source field is created with the '
+                              'absolute frequency of another field; the '
+                              'Laplace domain (negative value) is lost',
+                              ctx.where(mod, c))
+    ctx.need(n >= 5, f'only {n} field constructions with a frequency found')
+
+
 def run(ctx):
     ctx.explanation = (
         'The case-dependent decision code of jvec is evaluated over the four '
@@ -141,11 +168,21 @@ def run(ctx):
               'the forward field and multiplied by the conductivity vector',
               ctx.where(sm, cb))
     gf = find(f'_gf_ = fields.Field(grid={e}.grid, data=-{e}.smu0 * _g_, '
-              f'frequency={e}.frequency)', cb,
+              f'frequency=_fq_)', cb,
               {'_g_': gv[0][1]['_g_']} if gv else None)
     ctx.check('C08.V3.source', 'jvec source field', len(gf) == 1,
               'the source of the sensitivity solve is not -s mu0 (dA/dm v) E '
               'on the grid of the forward field', ctx.where(sm, cb))
+    # ... in the SAME domain as the forward field: the signed frequency
+    # (`_frequency`; negative = Laplace), not the public absolute value
+    ctx.check('C08.V3.source', 'jvec source field keeps the sign of the '
+              'frequency', len(gf) == 1 and gf[0][1]['_fq_'] ==
+              f'{e}._frequency', 'the sensitivity system is assembled with '
+              f'frequency=`{gf[0][1]["_fq_"] if gf else "?"}`: the public '
+              '`frequency` of a field is the absolute value, so a '
+              'Laplace-domain survey (negative frequency) is solved as a '
+              'frequency-domain problem', ctx.where(sm, cb))
+    signed_frequency(ctx, 'C08.V3.source')
     ho = find("_d_ = {'model': self.model, 'sfield': _gf_, 'efield': None, "
               "'solver_opts': self.solver_opts}", cb,
               {'_gf_': gf[0][1]['_gf_']} if gf else None)
